@@ -33,6 +33,11 @@ def malformations(sc):
         add("sorted-direction:" + v, [("keep-sorted", v)], mention=["keep-sorted"])
     for v in ("alpha", "num", "numeric,", "number", "lex"):
         add("sorted-format:" + v, [("keep-sorted", "asc"), ("keep-sorted-format", v)], mention=["keep-sorted-format"])
+    for lines, tag in (((), "empty"), (("", "   "), "blank")):
+        add("sorted-direction-%s-block:sideways" % tag, [("keep-sorted", "sideways")], lines, mention=["keep-sorted"])
+        add("sorted-format-%s-block:numerical" % tag, [("keep-sorted", "asc"), ("keep-sorted-format", "numerical")], lines, mention=["keep-sorted-format"])
+        add("line-count-%s-block:oops" % tag, [("line-count", "oops")], lines, mention=["line-count"])
+        add("lua-%s-block:missing-file" % tag, [("check-lua", sc["dir"] + "/does-not-exist.lua")], lines, mention=["does-not-exist.lua", "check-lua"])
     add("numeric-key:only", [("keep-sorted", "asc"), ("keep-sorted-format", "numeric")], ["abc"], mention=["abc", "number"])
     add("numeric-key:first", [("keep-sorted", "asc"), ("keep-sorted-format", "numeric")], ["abc", "1", "2"], mention=["abc", "number"])
     add("numeric-key:middle", [("keep-sorted", "asc"), ("keep-sorted-format", "numeric")], ["1", "x2", "3"], mention=["x2", "number"])
